@@ -94,6 +94,8 @@ def strategy_case(draw, tier):
             "pred": st.one_of(st.none(), st.sampled_from(PREDS)),
             "limit": st.one_of(st.none(), st.integers(1, 4)),
             "shuffle": st.sampled_from([0, 0, 3, 50]),
+            "epochs": st.sampled_from([None, None, None, 2, 3]),
+            "two_pipelines": st.booleans(),
         }),
                  min_size=3,
                  max_size=8))
@@ -158,8 +160,24 @@ def run_case(case, ctx):
             what = (f"{iface} split={split} S={s_total} shards={k} "
                     f"filter={r['pred']} limit={r['limit']} "
                     f"shuffle={r['shuffle']} fmt={desc['fmt']}")
+            epochs = r.get("epochs")
             try:
-                got = dsops.read_all(b.h.ds, split, iface, **opts)
+                if iface == "tfdata" and r.get("two_pipelines") and not epochs:
+                    # pipelines are often built up front (train + validation)
+                    # and iterated later: the first one must keep ITS selection
+                    first, bs = dsops.tfdata_object(b.h.ds, split, **opts)
+                    dsops.tfdata_object(b.h.ds, split, repeat=False,
+                                        shuffle=0, shards=1)
+                    got = dsops.iterate_tfdata_object(first, bs)
+                elif epochs and sel:
+                    # the selection also holds in every later epoch of a
+                    # repeating stream
+                    n_sel = sum(s["n"] for s in sel)
+                    got = dsops.read_prefix(b.h.ds, split, iface,
+                                            epochs * n_sel,
+                                            **{**opts, "repeat": True})
+                else:
+                    got = dsops.read_all(b.h.ds, split, iface, **opts)
                 raised = None
             except Exception as exc:  # pylint: disable=broad-except
                 got, raised = None, exc
@@ -186,7 +204,13 @@ def run_case(case, ctx):
                     dsops.ex_id_of(e)
                     for e in dsops.decode_shard(b.h.root / sh["files"][0], desc))
             ids = [dsops.ex_id_of(e) for e in got]
-            if r["shuffle"] == 0:
+            if epochs and sel:
+                if r["shuffle"] == 0:
+                    ok = ids == want * epochs
+                else:
+                    # shuffled + repeating: only membership is defined
+                    ok = set(ids) <= set(want) and len(ids) == len(want) * epochs
+            elif r["shuffle"] == 0:
                 ok = ids == want
             else:
                 ok = Counter(ids) == Counter(want)
@@ -195,7 +219,8 @@ def run_case(case, ctx):
                     "selection",
                     ("selection-mismatch", iface, "+".join(kinds or ["none"])),
                     f"{what}: selected shards {[Path(s['files'][0]).name[:8] for s in sel]} "
-                    f"of {s_total}; " + oracles.multiset_diff(ids, want) +
+                    f"of {s_total}; epochs={epochs}; " +
+                    oracles.multiset_diff(ids, want * (epochs or 1)) +
                     (f" order got {ids[:10]} want {want[:10]}"
                      if r["shuffle"] == 0 else ""))
             if 0 < len(sel) < s_total:
